@@ -182,4 +182,54 @@ theorem bsearch_eq_searchIdx (bs : List SbRank → SbRank → Nat) (hbs : BSearc
 
 end table
 
+/-! ### the contract is satisfiable: the linear search `searchIdx` has it -/
+
+theorem takeWhile_spec {α : Type} (f : α → Bool) (l : List α) :
+    (∀ (i : Nat) (h : i < l.length), i < (l.takeWhile f).length → f l[i] = true) ∧
+    (∀ h : (l.takeWhile f).length < l.length, f l[(l.takeWhile f).length] = false) := by
+  induction l with
+  | nil => exact ⟨fun i h => by simp at h, fun h => by simp at h⟩
+  | cons x xs ih =>
+    by_cases hx : f x = true
+    · simp only [List.takeWhile_cons, hx, if_true, List.length_cons]
+      refine ⟨?_, ?_⟩
+      · intro i h hi
+        cases i with
+        | zero => simpa using hx
+        | succ i => simpa using ih.1 i (by simpa using h) (by omega)
+      · intro h
+        simpa using ih.2 (by omega)
+    · simp only [List.takeWhile_cons, hx, List.length_nil]
+      refine ⟨fun i h hi => by simp at hi, fun h => by simpa using hx⟩
+
+theorem lt_trichotomy (a b : SbRank) (h1 : a.lt b = false) (h2 : b.lt a = false) : a = b := by
+  rw [← Bool.not_eq_true, lt_iff] at h1 h2
+  cases a <;> cases b <;> simp [SbRank.val] at h1 h2 ⊢ <;> omega
+
+theorem lt_of_lt_of_not_lt (a b c : SbRank) (h1 : a.lt b = true) (h2 : c.lt b = false) : a.lt c = true := by
+  rw [← Bool.not_eq_true, lt_iff] at h2
+  rw [lt_iff] at h1 ⊢
+  cases a <;> cases b <;> cases c <;> simp [SbRank.val] at h1 h2 ⊢ <;> omega
+
+/-- non-vacuity of `BSearchOk`: "number of leading entries below the key" satisfies the contract on every sorted list -/
+theorem searchIdx_ok : BSearchOk SbRank.lt searchIdx := by
+  intro l key hs
+  unfold searchIdx
+  obtain ⟨h1, h2⟩ := takeWhile_spec (fun e => e.lt key) l
+  have hle := length_takeWhile_le (fun e => e.lt key) l
+  generalize (l.takeWhile (fun e => e.lt key)).length = r at h1 h2 hle
+  by_cases hr : r < l.length
+  · have hnot := h2 hr
+    by_cases hk : key.lt l[r] = true
+    · right
+      refine ⟨by omega, fun i h hi => h1 i h hi, ?_⟩
+      intro i h hi
+      by_cases hir : i = r
+      · subst hir; exact hk
+      · exact lt_of_lt_of_not_lt key l[r] l[i] hk (hs r i (by omega) h)
+    · left
+      exact ⟨hr, lt_trichotomy _ _ hnot (by simpa using hk)⟩
+  · right
+    exact ⟨by omega, fun i h hi => h1 i h hi, fun i h hi => by omega⟩
+
 end RbV.Lemmas.RankSelectSorted
